@@ -36,9 +36,34 @@ def sh(cmd, **kw):
     return subprocess.run(cmd, capture_output=True, text=True, **kw)
 
 
+GENERATED = {}
+
+
+def run_generator(prop, cfg):
+    """prop.json "generate": "<module>.py" in the property directory with generate(repo, out_dir) -> {opt: path}.
+    Generated sources land in the cache (per tree) and are on the shim include path."""
+    if "generate" not in cfg or prop in GENERATED:
+        return GENERATED.get(prop)
+    import importlib.util
+    path = os.path.join(VERIF, "props", prop, cfg["generate"])
+    spec = importlib.util.spec_from_file_location("gen_" + prop, path)
+    mod = importlib.util.module_from_spec(spec)
+    spec.loader.exec_module(mod)
+    out_dir = os.path.join(build.CACHE, "gen", prop)
+    shutil.rmtree(out_dir, ignore_errors=True)
+    opts = mod.generate(build.REPO, out_dir)
+    GENERATED[prop] = (out_dir, opts)
+    return GENERATED[prop]
+
+
 def link_harness(prop, cfg, variant, extra_key=""):
     """Compile the C shims against the freshly built libast variant and link the harness binary."""
     vdir = build.ensure(variant)
+    gen = run_generator(prop, cfg)
+    gen_inc = []
+    if gen:
+        gen_inc = ["-I" + gen[0]]
+        extra_key += "".join(open(f).read() for f in sorted(glob.glob(os.path.join(gen[0], "*.inc"))))
     objs = setup.ensure_objects([prop])
     pdir = os.path.join(VERIF, "props", prop)
     shim_srcs = sorted(glob.glob(os.path.join(pdir, "shim*.c")))
@@ -58,7 +83,7 @@ def link_harness(prop, cfg, variant, extra_key=""):
     for s in shim_srcs:
         o = os.path.join(bdir, os.path.basename(s)[:-2] + ".o")
         cmd = [cc] + cflags.split() + ["-DHAVE_CONFIG_H", "-D" + build.GUARD] + build.include_flags(vdir) + \
-              ["-I" + os.path.join(VERIF, "engine"), "-c", s, "-o", o]
+              ["-I" + os.path.join(VERIF, "engine")] + gen_inc + ["-c", s, "-o", o]
         r = sh(cmd)
         if r.returncode != 0:
             raise RuntimeError("shim compile failed: %s\n%s" % (s, r.stderr))
@@ -189,6 +214,9 @@ def _generic(args, cfg, prop, tier, t0, known, open_f, quarantine, run_dir, scra
     PROGRAM_OPTS = []
     for kname, kpath in programs.items():
         PROGRAM_OPTS += ["--opt", "%s=%s" % (kname, kpath)]
+    if prop in GENERATED:
+        for kname, kpath in GENERATED[prop][1].items():
+            PROGRAM_OPTS += ["--opt", "%s=%s" % (kname, kpath)]
 
     # ---------------- single replay
     if args.replay:
